@@ -33,6 +33,8 @@ func runC11(c *Ctx) {
 	ruleCatalogNameMatch(c, "C11.9")
 	c02RedoGuard(c, "C11.10")
 	ruleStaleDerived(c, "C11.11")
+	c04PageLSN(c, "C11.12")
+	ruleDescentAgreement(c, "C11.13")
 	// advisory: direct indexing
 	for _, name := range []string{"storage.(*btreeNode).updateCell", "storage.(*btreeNode).split", "storage.WALBatch.replay"} {
 		f := c.W.F(name)
